@@ -126,6 +126,8 @@ func main() {
 		out = extractCtors(pkgs)
 	case "decoders":
 		out = extractDecoders(pkgs)
+	case "effects":
+		out = extractEffects(pkgs)
 	default:
 		fmt.Fprintln(os.Stderr, "unknown extractor")
 		os.Exit(2)
